@@ -481,6 +481,13 @@ class SArr(_np.ndarray):
             return r.view(SArr)
         return lift(r)
 
+    # (added by group `tensors`, additive) `a.astype(np.float64)` of a symbolic array is a copy of
+    # the same symbolic values (the model has one numeric type); any other conversion fails closed
+    def astype(self, dtype, *a, **kw):
+        if a or kw or dtype not in (float, _np.float64):
+            raise TranslatorUnsupported("astype other than astype(float64)")
+        return self.copy()
+
 
 def _obj(a):
     out = _np.empty(_np.shape(a), dtype=object).view(SArr)
